@@ -14,19 +14,24 @@ PairDisjoint(p) ==
   /\ d + ss <= dl /\ s + ss <= dl
   /\ (d + ss <= s \/ s + ss <= d)
 PairsOk(e) == \A i \in 1..Len(e.pairs) : Chk(PairDisjoint(e.pairs[i]), <<"paired borrow overlaps or leaves the slab", e.pairs[i]>>)
-\* Direct requests (every index pair of a small slab, equal and out-of-range indices included, with a reorder
-\* mapping or not): the borrow is granted exactly when the two logical indices are in range and map to different
-\* symbols - then the two returned slices are the two symbols - and refused (panic, nothing handed out) otherwise.
+\* Direct requests (every index pair of a small slab, equal and out-of-range indices included, with a reorder in force or
+\* not): the borrow is granted exactly when the two indices are in range and different - then the two returned slices are
+\* two whole, distinct, in-bounds, non-overlapping symbols (WHICH physical symbols is the slab's business: a reorder may
+\* be a mapping or a physical permutation) - and refused (panic, nothing handed out) otherwise.
+SlicesOk(e, c) ==
+  LET d == c.ret[1] dl == c.ret[2] s == c.ret[3] sl == c.ret[4] total == e.count * e.ss IN
+  /\ dl = e.ss /\ sl = e.ss
+  /\ d >= 0 /\ s >= 0 /\ d % e.ss = 0 /\ s % e.ss = 0
+  /\ d + e.ss <= total /\ s + e.ss <= total
+  /\ (d + e.ss <= s \/ s + e.ss <= d)
 DirectOk(e) ==
   \A i \in 1..Len(e.calls) :
     LET c == e.calls[i]
-        inr == c.dest < e.count /\ c.src < e.count
-        admissible == inr /\ e.phys[c.dest + 1] # e.phys[c.src + 1]
+        admissible == c.dest < e.count /\ c.src < e.count /\ c.dest # c.src
         ctx == <<"count", e.count, "ss", e.ss, "mapping", e.mapping, "dest", c.dest, "src", c.src, c.res, c.ret>>
     IN IF admissible
-       THEN Chk(c.res = "ok" /\ c.ret = <<e.phys[c.dest + 1] * e.ss, e.ss, e.phys[c.src + 1] * e.ss, e.ss>>
-                /\ \A k \in 1..Len(c.hook) : PairDisjoint(c.hook[k]),
-                <<"admissible paired borrow refused or misplaced", ctx>>)
+       THEN Chk(c.res = "ok" /\ SlicesOk(e, c) /\ \A k \in 1..Len(c.hook) : PairDisjoint(c.hook[k]),
+                <<"admissible paired borrow refused, overlapping or outside the slab", ctx>>)
        ELSE Chk(c.res = "panic", <<"paired borrow granted for equal or out-of-range indices", ctx>>)
 Init == v_pos = 1 /\ v_pairs = 0
 Step == /\ v_pos <= Len(Rec)
